@@ -117,6 +117,11 @@ func executeCompaction(db *DB) (compactionMetadata *proto.CompactionMetadata, er
 	}()
 
 	reduceFunc := sstables.ScanReduceLatestWinsSkipTombstones
+	if !compactionAction.includesOldestTable {
+		// an older table that is not part of this compaction may still hold a value for a deleted key, so the
+		// tombstones have to survive until they are merged with the oldest table
+		reduceFunc = scanReduceLatestWinsKeepTombstones
+	}
 	err = sstables.NewSSTableMerger(db.cmp).MergeCompact(iterators, writer, reduceFunc)
 	if err != nil {
 		return nil, err
@@ -143,6 +148,17 @@ func executeCompaction(db *DB) (compactionMetadata *proto.CompactionMetadata, er
 	log.Printf("done compacting %d sstables in %v. Path: [%s]\n", len(paths), time.Since(start), writeFolder)
 
 	return compactionMetadata, nil
+}
+
+// scanReduceLatestWinsKeepTombstones is sstables.ScanReduceLatestWins, but keeps a tombstoned key as an empty value.
+// Empty values can not be put into the database, reads treat them as deleted and sstables.ScanReduceLatestWinsSkipTombstones
+// drops them in a later compaction.
+func scanReduceLatestWinsKeepTombstones(key []byte, values [][]byte, context []int) ([]byte, []byte) {
+	key, val := sstables.ScanReduceLatestWins(key, values, context)
+	if len(val) == 0 {
+		return key, []byte{}
+	}
+	return key, val
 }
 
 func saveCompactionMetadata(writeFolder string, compactionMetadata *proto.CompactionMetadata) (err error) {
